@@ -123,6 +123,26 @@ func runC01(c *Ctx) {
 	st.pool = gen.Hostile.Table(r, r.Range(6, 28))
 	c.Class("icset_" + ics.Name)
 	parsedPool := parseAll(st.pool, ics.Funcs)
+	if r.Chance(1, 3) {
+		// an ignored parameter spelled like a captured one of the same pattern. The router refuses such a pattern (then it
+		// simply is no part of the table); one it accepts has to be dispatched soundly like any other, and so have the
+		// routes around it - abandoning the ignored twin must not take the captured value with it
+		pre := ref.Pick(r, []string{"/", "/tw/", "tw", "/a/b/"})
+		n1, n2 := ref.Pick(r, []string{"id", "n", "名"}), ref.Pick(r, []string{"other", "m"})
+		var twin string
+		if r.Bool() {
+			twin = pre + "{" + n1 + "}/{-" + n1 + `:\d+}/x`
+		} else {
+			twin = pre + "{-" + n1 + `:\d+}/{` + n1 + "}/x"
+		}
+		comp := pre + "{" + n1 + "}/{" + n2 + "}/y"
+		if r.Bool() {
+			comp = pre + "{" + n2 + "}/{" + n1 + "}/y"
+		}
+		parsedPool = append(parsedPool, parseAll([]string{comp}, ics.Funcs)...)
+		st.pool = append(st.pool, twin, twin, comp, comp) // twice: they are picked often enough to be live together
+		c.Class("pool_with_ignored_twin_of_captured_name")
+	}
 	nops := r.Range(8, 40)
 	removed := false
 	for i := 0; i < nops && !c.Violated(); i++ {
@@ -239,6 +259,7 @@ func c01Directed() []Directed {
 		mk("name-prefix-split", noneIC, []string{"+b{idx}/x", "+b{id}", "+bd/q"}, get("+bdd/q"), get("+b7/x")),
 		mk("head-maps-to-get", noneIC, []string{"/h/{id}"}, mon.Req{Method: "HEAD", Path: "/h/7"}, mon.Req{Method: "PUT", Path: "/h/7"}, mon.Req{Method: "OPTIONS", Path: "/h/7"}),
 		mk("empty-path-and-asterisk-are-no-routes", noneIC, []string{"/", "/{path}", "{w}"}, get(""), get("*"), mon.Req{Method: "POST", Path: ""}, mon.Req{Method: "HEAD", Path: ""}, mon.Req{Method: "PUT", Path: "*"}, get("/"), get("/x")),
+		mk("ignored-twin-of-captured-name", noneIC, []string{`/{id}/{-id:\d+}/x`, "/{id}/{name}/y", `/v/{-id:\d+}/{id}/x`, "/v/{name}/{id}/y"}, get("/5/7/y"), get("/5/7/x"), get("/v/5/7/y"), get("/v/5/7/x")),
 		mk("ignored-param-not-reported", stdIC, []string{"/i/{-y}/{n:digit}", "/i/{-y}/x"}, get("/i/a/7"), get("/i/a/x"), get("/i/a/b")),
 	}
 }
